@@ -36,6 +36,17 @@ SIG_SIZEOF_KEYERROR = '_validate_sizeof KeyError: sizeof target member has an un
 SIG_INLINE_ATTRIBUTEERROR = '_validate_struct_field AttributeError: named inline of an alias or enum (no disposition attribute)'
 SIG_SORTKEY_CRASH = '_validate_array crash: sort_key on an array whose element type is not a struct'
 SIG_SOUND_SIZEOF = 'consistent schema with sizeof inside a named-inline template: POST_EXPANSION reports unknown sizeof property (copy not re-pointed)'
+ATTRIBUTE_MESSAGES = (
+	'reference to unknown sizeref property', 'reference to unknown sort_key property', 'reference to "size" property',
+	'reference to unknown "size" property', 'reference to unknown "discriminator" property', 'reference to unknown "comparer" ',
+	'reference to unknown "intializes" property')
+
+
+def is_attribute_kind(message):
+	"""The message kinds that read a reference introduced by an attribute (Lean: attributeKinds)."""
+	return message.startswith(ATTRIBUTE_MESSAGES) or (message.startswith('property "') and message.endswith('of different type'))
+
+
 SIG_SOUND_SORTKEY = 'consistent schema with sort_key inside a named-inline template: POST_EXPANSION reports unknown sort_key property (copy prefixed)'
 
 
@@ -480,6 +491,7 @@ class Checker:
 		self.compare_with_model('pre', models, pre, case)
 		if pre[1] and not always_post:
 			return result
+		raw_wire = cats_json.schema_to_wire(models) if not pre[1] else None
 		raised = expand_models(models)
 		if raised is not None:
 			result['raised'] = raised
@@ -493,7 +505,32 @@ class Checker:
 			return result
 		result['post'] = post[1]
 		self.compare_with_model('post', models, post, case)
+		if raw_wire is not None:
+			self.check_stage_relation(raw_wire, post[1], case)
 		return result
+
+	def check_stage_relation(self, raw_wire, post_errors, case):
+		"""Theorem post_errors_after_clean_pre evaluated on the real code: after a clean PRE stage (and successful expansion) every
+		POST error is of an attribute kind or comes with a duplicate-member error for the same struct - whenever the decidable side
+		conditions (decided by the model on the schema as it was before expansion) hold."""
+		ctx = self.ctx
+		if ctx.driver is None:
+			return
+		hypotheses = ctx.driver.ask('hyps ' + raw_wire)
+		ctx.count('stages:hypotheses:' + hypotheses.replace(' ', '/'))
+		if 'true true' != hypotheses:
+			return
+		ctx.count('stages:clean-pre-and-hypotheses')
+		duplicates = {error[0] for error in post_errors if 'duplicate struct fields' == error[2]}
+		for error in post_errors:
+			if is_attribute_kind(error[2]):
+				ctx.count('stages:post-error:attribute-kind')
+			elif error[0] in duplicates:
+				ctx.count('stages:post-error:with-duplicate-members')
+			else:
+				self.fail_property(
+					f'after a clean PRE_EXPANSION stage the POST_EXPANSION stage reports {error}: a member-level clause that expansion cannot '
+					'break (no duplicate-member error for that struct)', {**case, 'stage': 'post'})
 
 	def check_consistent(self, source, label, text=None):
 		"""Soundness on one consistent schema; returns the baseline POST errors caused by listed copy defects."""
@@ -617,8 +654,107 @@ def run(ctx):
 			ctx.fail('corr', f'harness error {type(ex).__name__}: {ex} {traceback.format_exc(limit=4)}', {'label': label, 'cats': text})
 			if ctx.counters.get('fail:corr', 0) > 5:
 				break
+	check_stage_witnesses(ctx, checker)
 	check_cli(ctx, checker)
 	check_pipeline(ctx, checker)
+
+
+STAGE_WITNESSES = [
+	# (label, CATS text, patch, expected POST errors as (typename, field names, message))
+	('stages-example', '''enum Mode : uint8
+	ROAD = 1
+	SEA = 2
+
+@is_size_implicit
+struct Thing
+	tag = uint16
+
+inline struct Tpl
+	size = uint16
+	__value__ = array(uint8, size)
+	len = sizeof(uint16, body)
+	mode = Mode
+	body = Thing if ROAD equals mode
+
+struct Host
+	aa = inline Tpl
+	count = uint8
+	bb = inline Tpl
+''', None, []),
+	('clash-breaks-condition', '''enum Mode : uint8
+	ROAD = 1
+	SEA = 2
+
+abstract struct Base
+	kind = Mode
+	opt = uint8 if ROAD equals kind
+
+struct Host
+	inline Base
+	kind = uint8
+''', None, [('Host', ['kind'], 'duplicate struct fields'), ('Host', ['opt'], 'field value "ROAD" is not a valid numeric value')]),
+	('inline-site-reference-breaks', '''inline struct Tpl
+	size = uint8
+
+struct Host
+	aa = inline Tpl
+	items = array(uint8, aa)
+''', None, [('Host', ['items'], 'reference to unknown size property "aa"')]),
+	('value-reference-breaks', '''inline struct Tpl
+	__value__ = uint8
+	items = array(uint8, size)
+
+struct Host
+	aa = inline Tpl
+''', 'value-ref', [('Host', ['aa_items'], 'reference to unknown size property "aa___value__"')]),
+	('attribute-reference-only-seen-after-expansion', '''struct Elem
+	key = uint8
+
+@size(gone)
+struct Host
+	@sizeref(nosuch, 2)
+	size = uint16
+	count = uint8
+	@sort_key(nokey)
+	items = array(Elem, count)
+''', None, [
+		('Host', [], 'reference to unknown "size" property "gone"'), ('Host', ['items'], 'reference to unknown sort_key property "nokey"'),
+		('Host', ['size'], 'reference to unknown sizeref property "nosuch"')]),
+]
+
+
+def check_stage_witnesses(ctx, checker):
+	"""The witnesses of Properties/C06.lean (clash_breaks_condition, inline_site_reference_breaks, value_reference_breaks,
+	attribute_reference_only_seen_after_expansion, and the positive example) replayed on the real catparser: clean PRE stage,
+	successful expansion, exactly the POST errors the Lean theorems state; the model pipeline has to agree."""
+	for label, text, patch, expected in STAGE_WITNESSES:
+		def load(text=text, patch=patch):
+			models = cats_common.parse_text(text)
+			if 'value-ref' == patch:
+				# the grammar cannot name `__value__` as a size; an AST can
+				array = models[0].fields[1].field_type
+				array.size = '__value__'
+				array._raw_size = '__value__'  # pylint: disable=protected-access
+			return models
+		case = {'label': f'witness:{label}', 'cats': text}
+		models = load()
+		model_answer = None
+		if ctx.driver is not None:
+			model_answer = cats_common.ask_json(ctx.driver, 'pipeline ' + cats_json.schema_to_wire(models))
+		pre = validate_models(models, post=False)
+		raised = expand_models(models) if ('ok', []) == pre else 'not run'
+		post = validate_models(models, post=True) if raised is None else None
+		ctx.case(('witness', label), {'label': label, 'pre': pre, 'post': post})
+		ctx.count(f'witness:{label}')
+		if ('ok', []) != pre or raised is not None or post is None or 'ok' != post[0]:
+			checker.fail_property(f'witness {label}: expected a clean PRE stage and a successful expansion, got pre={pre} raised={raised} post={post}', case)
+			continue
+		if sorted(post[1]) != sorted(expected):
+			checker.fail_property(f'witness {label}: the Lean theorem states POST errors {expected}, the implementation reports {post[1]}', case)
+		if model_answer is not None:
+			mine = sorted((item[0], sorted(item[1]), item[3]) for item in model_answer.get('post', [['?', [], '', '?']]))
+			if model_answer.get('pre') or 'error' in model_answer or mine != sorted(post[1]):
+				ctx.fail('corr', f'witness {label}: model pipeline {str(model_answer)[:300]} differs from the implementation {post[1]}', case)
 
 
 def validator_verdict(text):
@@ -741,11 +877,13 @@ MANIFEST = {
 	'level_text': (
 		'Lean theorems over the model of AstValidator: validate_sound (a declaratively Consistent schema has no error in either mode), one '
 		'completeness theorem per breakage kind (the broken site yields an error naming the struct and the member), errors_localised (the '
-		'errors of a declaration depend only on that declaration and the types it refers to); the model is tied to the code by a '
+		'errors of a declaration depend only on that declaration and the types it refers to), and the two stages related through expansion: '
+		'expand_preserves_consistent / post_errors_after_clean_pre (after a clean PRE stage only attribute-introduced references or a name clash can '
+		'fail POST) with witnesses that each side condition is necessary; the model is tied to the code by a '
 		'differential run on the same AST states, consistent random schemas, both shipped sets and every breaking operator at every site.'),
 	'level_note': (
 		'Trusted: Lean kernel + {propext, Classical.choice, Quot.sound}; hand-written model tied by differential execution only. The model '
-		'always reports; validator crashes of the unchanged tree are listed in known_findings.jsonl. Preservation of member-level '
-		'consistency by expansion is taken from C05 (re-pointing) and not re-proved here.'),
+		'always reports. The stage relation is proved for schemas in declared-before-use order with well-formed references (decidable, '
+		'decided by the model on every case where it is used); struct-level attribute clauses speak about the expanded layout by nature.'),
 	'technique': 'Lean 4 theorems over a hand-written model + differential correspondence with the Python implementation',
 }
